@@ -338,9 +338,6 @@ func c06Check(c *ev.Collector, k c06Case) {
 				if k.Proto != PConnect && (k.HStatus != "-" || k.TStatus != "-") {
 					hasProtocolError = true // grpc-status present: which one wins is not asserted
 				}
-				if k.Enc == "zstd" || k.Enc == "gzip" {
-					hasProtocolError = true // unknown / mismatching encoding is reported on its own
-				}
 				if !hasProtocolError && ce.Code() != want {
 					viol("http-status-code", "code="+ce.Code().String(), "HTTP %d without a valid protocol-level error must map to %v, got %v (%q)", k.Status, want, ce.Code(), clip(ce.Message(), 100))
 				}
